@@ -203,6 +203,18 @@ def gen_seq(rng, nops, in_contract):
     return 'seq|' + ','.join(map(str, init)) + '|' + ' '.join(ops)
 
 
+def enum_seq(L, inits):
+    """all histories of length 1..L over a small alphabet (every index in -3..3), on every initial array given"""
+    alpha = (['g%d' % i for i in range(-3, 4)] + ['s%d,9' % i for i in range(-3, 4)] + ['p5'] +
+             ['P7,%d' % i for i in range(-3, 4)] + ['o'] + ['O%d' % i for i in range(-3, 4)] + ['l', 'm1', 'r1', 'r9'])
+    out = []
+    for init in inits:
+        for n in range(1, L + 1):
+            for h in itertools.product(alpha, repeat=n):
+                out.append('seq|%s|%s' % (init, ' '.join(h)))
+    return out
+
+
 # ---------------------------------------------------------------------------------------------- comparison
 def unpack(impl):
     out = {}
@@ -439,6 +451,21 @@ def run(ctx):
         for i in range(0, nseq, 2000):
             ds.feed(scases[i:i + 2000])
 
+    # small-scope exhaustive enumeration of Array histories (in and out of contract)
+    if drv is not None:
+        if quick:
+            ex = enum_seq(2, ['', '1', '1,2'])
+            dsp.feed(ex)
+            ctx.cov['exhaustive'] = 'all %d Array histories of length <= 2 over 34 operations (indices -3..3) on [], [1], [1,2]: pairwise six builds + model + specification' % len(ex)
+        else:
+            ex2 = enum_seq(2, ['', '1', '1,2'])
+            ds.feed(ex2)
+            ex3 = enum_seq(3, ['', '1,2'])
+            for i in range(0, len(ex3), 5000):
+                dsp.feed(ex3[i:i + 5000])
+            ctx.cov['exhaustive'] = ('all %d Array histories of length <= 2 (34 operations, indices -3..3, on [], [1], [1,2]) on all 24 builds; '
+                                     'all %d of length <= 3 on [], [1,2] on the pairwise six; each also against model and specification' % (len(ex2), len(ex3)))
+
     ctx.cov['configurations'] = all_tags
     ctx.cov['configurations_pairwise'] = pair_tags if quick else []
     ctx.cov['workload_programs'] = dw.ncases + dwp.ncases
@@ -452,6 +479,5 @@ def run(ctx):
         dd.feed([gen_seq(ctx.rng, ctx.rng.randrange(3, 40), True) for _ in range(5 * min(nseq, 2000))])
     dw.report(extra_wl)
     ds.report(extra_seq)
-    if quick:
-        dwp.report(extra_wl)
-        dsp.report(extra_seq)
+    dwp.report(extra_wl)
+    dsp.report(extra_seq)
